@@ -141,7 +141,19 @@ func memberDesc(i int) ociregistry.Descriptor {
 	return ociregistry.Descriptor{MediaType: fmt.Sprintf("application/x-member-%d", i), Digest: memberDigest(i), Size: int64(len(memberContent(i)))}
 }
 
+// stall makes a reader behave like a response body on which nothing arrives: Read blocks until the
+// reader is closed, the context of the call that produced it is done, or the harness - once it knows
+// this reader is the one the caller was given - lets the content through.
+type stall struct {
+	chosen chan struct{}
+	closed chan struct{}
+	once   sync.Once
+	ctx    context.Context
+	abort  chan struct{}
+}
+
 type trackedReader struct {
+	stall    *stall
 	desc     ociregistry.Descriptor
 	data     *bytes.Reader
 	closes   atomic.Int32
@@ -151,6 +163,24 @@ type trackedReader struct {
 }
 
 func (r *trackedReader) Read(p []byte) (int, error) {
+	if st := r.stall; st != nil {
+		select {
+		case <-st.chosen:
+			st = nil
+		default:
+		}
+		if st != nil {
+			select {
+			case <-st.chosen:
+			case <-st.closed:
+				return 0, errors.New("read on a closed body")
+			case <-st.ctx.Done():
+				return 0, st.ctx.Err()
+			case <-st.abort:
+				return 0, errors.New("cell is over")
+			}
+		}
+	}
 	if r.readErr != nil && r.nread >= int(r.data.Size())/2 {
 		return 0, r.readErr
 	}
@@ -161,7 +191,13 @@ func (r *trackedReader) Read(p []byte) (int, error) {
 	r.nread += n
 	return n, err
 }
-func (r *trackedReader) Close() error                       { r.closes.Add(1); return r.closeErr }
+func (r *trackedReader) Close() error {
+	r.closes.Add(1)
+	if r.stall != nil {
+		r.stall.once.Do(func() { close(r.stall.closed) })
+	}
+	return r.closeErr
+}
 func (r *trackedReader) Descriptor() ociregistry.Descriptor { return r.desc }
 
 type member struct {
@@ -172,6 +208,7 @@ type member struct {
 	closeErr error // error its readers report from Close
 	failErr  error // what a failing answer wraps instead of memberErr (e.g. the member's own timeout)
 	readErr  error // error its readers report from Read halfway through
+	stalled  bool  // its readers deliver nothing until closed, cancelled or chosen
 
 	gate     chan struct{} // closed by the harness: the answer may be given
 	abort    chan struct{} // closed at the very end of the cell, whatever happened
@@ -226,6 +263,9 @@ func (m *member) serve(ctx context.Context) (*trackedReader, error) {
 	var rd *trackedReader
 	if m.ok {
 		rd = &trackedReader{desc: memberDesc(m.idx), data: bytes.NewReader(memberContent(m.idx)), closeErr: m.closeErr, readErr: m.readErr}
+		if m.stalled {
+			rd.stall = &stall{chosen: make(chan struct{}), closed: make(chan struct{}), ctx: ctx, abort: m.abort}
+		}
 	}
 	m.mu.Lock()
 	m.rd = rd
@@ -965,6 +1005,9 @@ func (s *sched) execute() {
 			s.violate("result/"+entryNames[c.entry]+"/returned-reader-closed",
 				fmt.Sprintf("the reader of the chosen member m%d had already been closed %d time(s) while the caller still holds it open", w, n), nil)
 		}
+		if wrd.stall != nil {
+			close(wrd.stall.chosen) // this is the body the caller got: it now delivers
+		}
 		data, rerr := io.ReadAll(s.res.rd)
 		if want := s.m[w].readErr; want != nil {
 			// the chosen member's reader fails halfway: the error is the caller's to see, and the member's
@@ -1002,6 +1045,28 @@ func (s *sched) execute() {
 		}
 	}
 
+	if !s.cancelIssued && s.returned && readerStyle(c.entry) {
+		// The caller's context is still live (and may stay so): the reader of a member that answered but was
+		// not chosen is closed all the same - nobody else ever will, and nothing but its Close or the
+		// cancellation of its member's context ends a body on which nothing arrives.
+		for x := 0; x < 2; x++ {
+			_, rd, _ := s.m[x].snapshot()
+			if rd == nil || x == s.winner {
+				continue
+			}
+			select {
+			case <-s.m[x].returned:
+			default:
+				continue
+			}
+			key := s.key("loser-not-closed") + "/caller-still-live"
+			if h.eventually("loser-not-closed", key, func() bool { return rd.closes.Load() >= 1 }) {
+				run.Count("loser_reader/closed_while_caller_live", 1)
+			} else {
+				s.violate(key, fmt.Sprintf("member m%d returned a reader, was not chosen (call returned %s), and while the caller's context is live its reader is not closed (stalled body: %v)", x, describe(s.res), rd.stall != nil), nil)
+			}
+		}
+	}
 	if s.opaque && !s.cancelIssued && s.returned {
 		// Both members have answered, the call has returned and what it returned is closed, and the caller's
 		// context is still live (it may stay so for as long as the program runs): no goroutine is left
@@ -1154,6 +1219,11 @@ func main() {
 				s.m[1].failErr = fmt.Errorf("member 1: upstream request: %w", context.Canceled)
 				run.Count("cases_with_context_like_member_errors", 1)
 			}
+			if rep%6 == 1 {
+				// bodies on which nothing arrives: whoever is not chosen must be closed without being read
+				s.m[0].stalled, s.m[1].stalled = true, true
+				run.Count("cases_with_stalled_bodies", 1)
+			}
 			s.nested = rep%7 == 6 || rep%10 == 9
 			if s.nested {
 				run.Count("cases_with_nested_unifiers", 1)
@@ -1231,6 +1301,7 @@ func main() {
 	}
 	run.FloorCounter("variant/hooked_context_look_reached", 5)
 	run.FloorCounter("variant/uncancellable_caller_context", 20)
+	run.FloorCounter("loser_reader/closed_while_caller_live", 20)
 	run.FloorCounter("goroutines/no_context_propagation_left", 20)
 	run.FloorCounter("loser_reader/closed", 1)
 	run.FloorCounter("loser_reader/closed_after_error_return", 1)
